@@ -1,17 +1,85 @@
 """Rule registry and property -> rules mapping (DESIGN.md sections 3 and 4)."""
-from . import bounds
+from . import bounds, formula, safety, arith
 
-RULES = {
-    "R-BOUNDS": {"fn": bounds.r_bounds, "floor": 14,
-                 "template": "every unchecked index sink (handle constructor, unsafe accessor, in-range shift) is dominated by a must-fact "
-                             "establishing its precondition on the same value numbers; the failing side diverges/returns before any effect"},
-    "R-LENLOWER": {"fn": bounds.r_lenlower, "floor": 10,
-                   "template": "each handle constructor lowers LEN exactly once, on every path, to its index/start parameter (Pop: LEN-1), and has no other effect"},
+RULES = {}
+
+
+def rule(name, fn, floor, template, **kw):
+    RULES[name] = dict(fn=fn, floor=floor, template=template, **kw)
+
+
+FORMULA_ROWS = {
+    # row-name prefix -> properties that own it
+    "push": ["C01"], "insert": ["C01"], "clear": ["C01", "C03"], "ctor-fields:Pop": ["C01", "C07"], "ctor-fields:Remove": ["C01", "C07"],
+    "ctor-fields:SwapRemove": ["C01", "C07"], "ctor-fields:Drain": ["C02", "C07"], "ctor-fields:Splice": ["C02", "C07"],
+    "Pop::": ["C01", "C13"], "Remove::": ["C01", "C13"], "SwapRemove::": ["C01", "C13"],
+    "Drain::drop": ["C02", "C03"], "Splice::drop": ["C02", "C03", "C11", "C05"],
+    "slot-pointer": ["C01", "C13", "C05"], "view:": ["C12", "C05"], "set_len": ["C12"], "iter-range": ["C01", "C14"],
+    "reserve": ["C10"], "reserve_exact": ["C10"], "shrink_to_fit": ["C10", "C05"], "shrink_to": ["C10", "C05"],
+    "clone": ["C08"],
 }
+
+
+def formula_filter(prop, f):
+    if f.kind == "coverage-lost":
+        return True
+    role = f.role or ""
+    for pre, props in sorted(FORMULA_ROWS.items(), key=lambda kv: -len(kv[0])):
+        if role.startswith(pre):
+            return prop in props
+    return True
+
+
+rule("R-BOUNDS", bounds.r_bounds, 25,
+     "every unchecked index sink (handle constructor, unsafe accessor, in-range shift) reached from a safe public entry is dominated by a "
+     "must-fact establishing its precondition on the same value numbers (index<LEN, LEN>0, index<=LEN, start<=end<=LEN); no effect precedes the guard")
+rule("R-LENLOWER", bounds.r_lenlower, 10,
+     "each handle constructor lowers LEN exactly once, on every path, to its index/start parameter (Pop: LEN-1), and has no other effect")
+rule("R-FORMULA", formula.r_formula, 60,
+     "per operation and dispatch arm, the effect summary (guards, ordered effects with their polynomial terms, final LEN) equals the Vec model row",
+     props_filter=formula_filter)
+
+rule("R-TYPEGUARD", safety.r_typeguard, 8,
+     "every write of a user value into vector storage and every unchecked reinterpretation reached from safe code is dominated by the "
+     "must-fact value_typeid()==element type id / TypeId::of::<T>() with the same T, before any effect on the vector")
+rule("R-ORDER", safety.r_order, 20,
+     "effect-ordering typestate: P1 no storage pointer used across a RESERVE; P2 no user code while shifted slots are inside LEN; "
+     "P3 destroyed slots already hidden by LEN; P4 destroy<consume, copy<consume<forget, final LEN after user code; P5 clone target empty during clone")
+rule("R-FORGET", safety.r_forget, 14,
+     "every resolved move_into either copies the bytes and forgets self on every normal path (owning values) or clones exactly once without copying (lazy values); "
+     "non-owning wrappers have no drop glue, owning handles have Drop")
+rule("R-EXPANDGUARD", safety.r_expandguard, 3,
+     "every call of the abstract Mem::expand is dominated by a check that capacity is insufficient (CAP < needed or LEN == CAP)")
+rule("R-NONINTERFERENCE", safety.r_noninterference, 8,
+     "tail source/count/destination, reservation and final LEN of a range handle's Drop do not depend on cursor fields written by next/next_back")
+rule("R-BOUNDLOOP", safety.r_boundloop, 2,
+     "a loop that drives writes into storage from a user iterator has an exit on a counter compared with the reserved count, and the final LEN uses the written count")
+
+rule("R-ARITH", arith.r_arith, 15,
+     "Add/Mul/Sub whose operand derives from unbounded caller input (additional/capacity arguments, range bounds, const-generic N, reported iterator length) "
+     "is an explicit checked_*/saturating_* operation or is dominated by a bounding fact; compiler-inserted overflow assertions do not count (absent in release)")
+rule("R-OVERLAP", arith.r_overlap, 20,
+     "copy_nonoverlapping/swap_nonoverlapping only between provably distinct ranges; crate-local byte loops run in the direction that is safe for dst-src "
+     "or are dominated by a pointer-order test")
+rule("R-UNITS", arith.r_units, 45,
+     "every pointer offset, copy/slice length, element count, capacity amount and layout size has the unit its sink requires (BYTES = elements x stride vs ELEMENTS); "
+     "byte strides come from the type accessed through the pointer")
+
+_EXPL = ("static rule conformance on the type-checked program (MIR exported by a rustc driver from /repo's working tree): "
+         "decides the structural clauses named in DESIGN.md section 4 for this property, not the behavioural statement as a whole")
 
 PROPERTIES = {
-    "C01": {"rules": ["R-BOUNDS"],
-            "explanation": "static rule conformance on the type-checked MIR of /repo",
-            "not_decided": "value-level equality of elements"},
-    "C07": {"rules": ["R-LENLOWER"], "explanation": "x", "not_decided": ""},
+    "C01": {"rules": ["R-BOUNDS", "R-FORMULA"], "not_decided": "value-level equality of elements; user backends violating the Mem contract"},
+    "C02": {"rules": ["R-BOUNDS", "R-LENLOWER", "R-FORMULA"], "not_decided": "equality of yielded values"},
+    "C03": {"rules": ["R-FORMULA"], "not_decided": "global count of live values over histories"},
+    "C05": {"rules": ["R-FORMULA"], "not_decided": "read-before-write in general, guard zones / poison (run-time notions)"},
+    "C07": {"rules": ["R-LENLOWER", "R-FORMULA"], "not_decided": ""},
+    "C08": {"rules": ["R-FORMULA"], "not_decided": "each source element cloned exactly once beyond the clone function's loop shape"},
+    "C10": {"rules": ["R-FORMULA"], "not_decided": "the count of reallocations over 2^16 pushes (only the doubling term is checked)"},
+    "C11": {"rules": ["R-FORMULA"], "not_decided": "behavioural equality with the heap backend beyond 'same generic code'"},
+    "C12": {"rules": ["R-FORMULA"], "not_decided": ""},
+    "C13": {"rules": ["R-FORMULA"], "not_decided": "value equality after mutation"},
+    "C14": {"rules": ["R-FORMULA"], "not_decided": ""},
 }
+for _p in PROPERTIES.values():
+    _p.setdefault("explanation", _EXPL)
